@@ -254,6 +254,7 @@ SELECTED += [
     ("Marker.__eq__", "packaging.markers", "Marker.__eq__"),
     ("Marker.__hash__", "packaging.markers", "Marker.__hash__"),
     ("Marker.evaluate", "packaging.markers", "Marker.evaluate"),
+    ("Marker.__init__", "packaging.markers", "Marker.__init__"),
 ]
 TRACKED += [("packaging._parser", "Node"), ("packaging._parser", "Variable"), ("packaging._parser", "Value"),
             ("packaging._parser", "Op"), ("packaging.markers", "Marker")]
